@@ -120,7 +120,39 @@ func fsMachine(p *Prog, copyAtomic bool) *Machine {
 			tagged{&TupleV{E: []Val{nilV{}, IfaceV{T: errType, V: "stat failed"}}}, "stat=missing"},
 		}, true
 	}
+	// Lstat answers like Stat; sizes and modification times of files are the environment's: the comparisons on them
+	// go both ways (two sizes, any order of two times), so a path that depends on them is explored under each answer
+	m.Hooks["os.Lstat"] = m.Hooks["os.Stat"]
+	for _, cmp := range []string{"Before", "After", "Equal"} {
+		m.Hooks["(time.Time)."+cmp] = func(m *Machine, st *State, call *ssa.CallCommon, args []Val) ([]Val, bool) {
+			return []Val{true, false}, true
+		}
+	}
+	m.Hooks["(time.Time).Compare"] = func(m *Machine, st *State, call *ssa.CallCommon, args []Val) ([]Val, bool) {
+		return []Val{int64(-1), int64(0), int64(1)}, true
+	}
+	m.Hooks["(time.Time).IsZero"] = func(m *Machine, st *State, call *ssa.CallCommon, args []Val) ([]Val, bool) {
+		return []Val{false}, true
+	}
 	m.InvokeHook = func(m *Machine, st *State, call *ssa.CallCommon, recv Val, args []Val) ([]Val, bool) {
+		if call.Method.Name() == "Size" && len(args) == 0 {
+			if iv, ok := recv.(IfaceV); ok {
+				if pp, ok := iv.V.(Ptr); ok {
+					if o, ok := st.Heap[pp.Obj].V.(OpaqueV); ok && strings.HasPrefix(o.Name, "fileinfo:") {
+						return []Val{int64(10), int64(11)}, true
+					}
+				}
+			}
+		}
+		if call.Method.Name() == "ModTime" && len(args) == 0 {
+			if iv, ok := recv.(IfaceV); ok {
+				if pp, ok := iv.V.(Ptr); ok {
+					if o, ok := st.Heap[pp.Obj].V.(OpaqueV); ok && strings.HasPrefix(o.Name, "fileinfo:") {
+						return []Val{OpaqueV{"mtime:" + o.Name}}, true
+					}
+				}
+			}
+		}
 		if call.Method.Name() == "IsDir" {
 			if iv, ok := recv.(IfaceV); ok {
 				if pp, ok := iv.V.(Ptr); ok {
@@ -586,6 +618,10 @@ func c20Clean(p *Prog, rp *Report) {
 			}
 		}
 		removed := hasPrefix(ef, `remove("DST")`, "")
+		if run.errNil && !created && !has(`open("SRC")=fail`) {
+			problems = append(problems, fmt.Sprintf("success is returned without the destination having been created and written (effects %v): whatever is at the destination stays as it was, which need not be the source's bytes", ef))
+			continue
+		}
 		anyFail := !opened || !created || copyFail || closeFail
 		if anyFail && run.errNil {
 			problems = append(problems, fmt.Sprintf("a failing step is not reported (effects %v)", ef))
